@@ -8,7 +8,7 @@ CONSTANTS
   SchI = {1, 2}
   UsrI = {1, 2}
   PwI = {1}
-  HostI = {1, 2}
+  HostI = {1, 2, 4}
   PortI = {1}
   PNameI = {1, 7}
   PValI = {2, 3}
